@@ -7,6 +7,8 @@ import tempfile
 
 import common
 import jsonio
+import pelbuild
+import apel
 from common import Check, lean_batch, tb, tt, tlist
 
 TRUSTED = ['Lean 4.33.0 kernel (+ leanchecker in the thorough tier)',
@@ -93,7 +95,13 @@ def run(tier, seed):
             tmp = tempfile.mkdtemp(prefix='c20_')
             open(os.path.join(tmp, '__init__.py'), 'w').close()
             for i, c in enumerate(chips):
-                json.dump(c, open(os.path.join(tmp, 'chip%d.json' % i), 'w'))
+                if rnd % 2 == 1 and i % 2 == 0:
+                    # deployed as a symbolic link into the data directory (packaging systems do that): a data file all the same
+                    os.makedirs(os.path.join(tmp, 'store'), exist_ok=True)
+                    json.dump(c, open(os.path.join(tmp, 'store', 'real%d.json' % i), 'w'))
+                    os.symlink(os.path.join(tmp, 'store', 'real%d.json' % i), os.path.join(tmp, 'chip%d.json' % i))
+                else:
+                    json.dump(c, open(os.path.join(tmp, 'chip%d.json' % i), 'w'))
             hwdata.__file__ = os.path.join(tmp, '__init__.py')
             try:
                 reqs, meta = ['defchips ' + tlist(chips, tok_chip)], [None]
@@ -213,6 +221,30 @@ def run(tier, seed):
                                 ck.fail('register dump does not list every register with exactly its data bytes', rp, 'regdump_data')
                         if real != model:
                             ck.disagree('udparsers.oe500 differs from model', rp | {'impl': str(real)[:300], 'model': str(model)[:300]})
+                        # the same section INSIDE a PEL, as User Data and as Extended User Data, with a version that differs from the subtype:
+                        # the section shows what the parser gives for exactly (subtype, version, payload)
+                        if real[0] == 'json' and data and rng.random() < 0.2:
+                            for kind in ('User Data', 'Extended User Data'):
+                                ver = rng.choice([1, 2, 3, 5])
+                                sec = pelbuild.UD(data, sub=sub, ver=ver, comp=0xE500) if kind == 'User Data' else pelbuild.ED(data, creator=b'O', sub=sub, ver=ver, comp=0xE500)
+                                pel = pelbuild.pel([pelbuild.UH(), sec], eid=0x0C200001)
+                                try:
+                                    want = json.loads(ud.parseUDToJson(sub, ver, memoryview(data)), object_pairs_hook=jsonio.pairs_hook)
+                                except Exception:  # noqa
+                                    continue
+                                dec = apel.real_decode(pel)
+                                ck.count('hardware-diagnostics section inside a PEL (%s)' % kind)
+                                rp2 = rp | {'op': 'oe500 section in a PEL', 'section': kind, 'version': ver}
+                                shown = dict(dec[2][1]).get(kind) if dec[0] == 'doc' else None
+                                if shown is None:
+                                    ck.fail('a PEL with a hardware-diagnostics %s section is not decoded' % kind, rp2 | {'actual': str(dec[:3])[:300]}, 'pel_section')
+                                    continue
+                                members = dict(shown[1])
+                                wantc = jsonio.canon(want)
+                                bad = [k for k, v in wantc[1] if members.get(k) != v] if isinstance(wantc, tuple) and wantc[0] == 'obj' else ([] if members.get('Data') == wantc else ['Data'])
+                                if bad:
+                                    ck.fail('a hardware-diagnostics section inside a PEL does not show what its parser gives for (subtype, version, payload)',
+                                            rp2 | {'members': bad[:4]}, 'pel_section')
             finally:
                 shutil.rmtree(tmp, ignore_errors=True)
     finally:
